@@ -56,6 +56,7 @@ TAGS = {
     36: 'S/F/ALAG/R/D/A index is not the NM compartment number',
     28: 'a PK parameter the ADVAN/TRANS requires is never assigned in $PK',
     43: 're-read model: F differs',
+    50: 'the S<k> of the final model is not the index the history of renumberings (with map refresh) predicts',
     48: 'the CMT value of dose records is not the number of the dosing compartment',
     49: 'dose records carry the CMT of the central compartment although the model doses another compartment',
     44: 'the PK parameters defined are those of another TRANS than the one $SUBROUTINE declares',
@@ -68,7 +69,7 @@ TAGS = {
     42: 'generated code is not readable abbreviated code',
 }
 CORR = {1, 2, 4, 5, 6, 7, 8}
-ORACLE = {11, 12, 13, 14, 15, 16, 19, 20, 17, 18, 31, 32, 33, 34, 35, 36, 37, 38, 39, 40, 41, 42, 43, 48}
+ORACLE = {11, 12, 13, 14, 15, 16, 19, 20, 17, 18, 31, 32, 33, 34, 35, 36, 37, 38, 39, 40, 41, 42, 43, 48, 50}
 KNOWN_CLASS = {49: 'C02-CMT-DOSE-REMAP', 21: 'C02-PW-OVERLAP', 22: 'C02-PW-SELFREF', 23: 'C02-PW-ZERO-ELSE'}
 # fixed in /repo (5cd6b91, 08b5390, 09fcba7, 4524793): C02-COND-NARY, C02-COND-PREC, C02-PRINT-FN2, C02-PRINT-INVFN,
 # C02-DES-SCALE-STALE have no class tag any more -- a recurrence shows as oracle tags 17 / 14 / 34,36,43 = VIOLATION
@@ -761,6 +762,7 @@ def run_histories(ctx, regspecs, dist, samples):
         'ncomp_hist': _hist([i['ncomp'] for i in infos]),
         'steps_applied': dict(sorted(steps_ok.items())), 'steps_refused': dict(sorted(steps_failed.items())),
         'with_des': sum(1 for i in infos if i['n_des']),
+        'scale_history_checked(212)': sum(1 for v in verdicts if 212 in v),
         'des_with_two_or_more_shifts': sum(1 for i in infos if i['n_des'] and len(i['applied']) >= 3),
         'stale_rate_names_outside_$MODEL (treated as ordinary variables)': sum(1 for i in infos if i.get('stale_k')), 'reread_failed': sum(1 for i in infos if 'reread_exc' in i),
         'explained(28 missing K,30 no $DES)': hist_counts(verdicts, 28, 31), 'explained(44 trans not written,46 ratio denom one)': hist_counts(verdicts, 44, 48),
